@@ -85,7 +85,7 @@ pub fn suite(name: &str, thorough: bool) -> Suite {
         "C15" => {
             s.kinds = kinds_where(|k| k.consuming);
             s.terms = vec![Term::Drop, Term::Seq(ALL), Term::Seq(1), Term::Seq(0)];
-            s.depth = if thorough { 5 } else { 4 };
+            s.depth = if thorough { 6 } else { 4 };
         }
         "C10" => {
             s.alphabet = alphabet(&["N", "I", "C2:a", "C3:1", "CL1:a", "C1:0", "HC2", "HN1", "HD", "BN2", "BN3", "BXa", "BX1", "BD", "S", "EF2", "CMx:1", "CHp1:a"]);
@@ -112,7 +112,7 @@ pub fn suite(name: &str, thorough: bool) -> Suite {
             s.allow_zero = true;
             s.lens = vec![0, 1, 2, 3];
             s.alphabet = alphabet(&["N", "C0:a", "C1:a", "CL0:a", "CL1:a", "CHh:a", "CHp1:1", "CMm1:a", "CMx:a", "CMx:0", "BNMx", "BNHp1", "BN2", "BXa", "BX1", "BD", "S", "FE0", "BN0", "FO0", "EF0", "I"]);
-            s.depth = if thorough { 4 } else { 3 };
+            s.depth = if thorough { 5 } else { 3 };
             s.terms = vec![Term::Drop, Term::Seq(ALL)];
         }
         "C16R" => {
@@ -121,7 +121,7 @@ pub fn suite(name: &str, thorough: bool) -> Suite {
             s.kinds = vec![KindId::RangeX];
             s.lens = (0..9).flat_map(|a| (0..9).map(move |b| a * 16 + b)).collect();
             s.alphabet = alphabet(&["N", "I", "C0:2", "C1:2", "C2:2", "C7:2", "CHh:2", "CHp1:2", "CMm1:2", "CMx:2", "BN1", "BN7", "BNHp1", "BNMx", "BX2", "BD", "S", "BN0", "FE0"]);
-            s.depth = if thorough { 4 } else { 3 };
+            s.depth = if thorough { 5 } else { 3 };
             s.terms = vec![Term::Drop, Term::Seq(2)];
         }
         "C14" => {
@@ -130,14 +130,14 @@ pub fn suite(name: &str, thorough: bool) -> Suite {
             s.kinds = vec![KindId::OVec, KindId::OArray];
             s.lens = vec![1, 2, 3];
             s.alphabet = alphabet(&["N", "C2:a", "BN2", "BXa", "S", "F1", "FN2", "PR1", "PR2", "EE", "CA1", "CI", "CMx:a", "FNMx", "GET0", "GET1", "GETL0", "CS0", "CS1", "CSL0"]);
-            s.depth = if thorough { 4 } else { 3 };
+            s.depth = if thorough { 6 } else { 4 };
             s.terms = vec![Term::Drop, Term::Seq(ALL)];
         }
         "C19" => {
             s.mode = Mode::Multi;
             s.kinds = vec![KindId::Slice, KindId::VecRef, KindId::ArrayRef, KindId::Range5];
             s.alphabet = alphabet(&["N", "I", "C2:a", "C3:1", "BN2", "BN3", "S", "NI", "CL", "SEL0", "SEL1", "SEL2", "CMx:1"]);
-            s.depth = if thorough { 6 } else { 5 };
+            s.depth = if thorough { 7 } else { 5 };
             s.terms = vec![Term::Drop, Term::Seq(ALL)];
         }
         "C02" => {
